@@ -105,12 +105,7 @@ def check_layout(text, d, o):
                 if vc != il + off + 1:
                     errs.append(("align", f"value of {kw} at line {line} starts in column {vc}, expected {il + off + 1} (longest keyword {m}, indent {o['indent']})"))
                     break
-    else:
-        for b, ls in groups.items():
-            for k, vc, il, line, kw in ls:
-                if vc != il + k + 2:
-                    errs.append(("spacing", f"value of {kw} at line {line} starts in column {vc}, expected one space after the keyword"))
-                    break
+    # (without align_values the statement says nothing about the gap between keyword and value)
     return errs
 
 
